@@ -402,13 +402,15 @@ class TileWalker(object):
                 handle_tiles = [t for t in handle_tiles if
                                 t is not None]
             elif self.handle_uncached:
-                handle_tiles = [t for t in handle_tiles if
-                                t is not None and
-                                not self.tile_mgr.is_cached(t)]
+                # examine every tile that is created together with t, not
+                # only t, and hand over the ones that are missing or stale
+                handle_tiles = [st for t in handle_tiles if t is not None
+                                for st in self._tiles_of(t)
+                                if not self.tile_mgr.is_cached(st)]
             elif self.handle_stale:
-                handle_tiles = [t for t in handle_tiles if
-                                t is not None and
-                                self.tile_mgr.is_stale(t)]
+                handle_tiles = [st for t in handle_tiles if t is not None
+                                for st in self._tiles_of(t)
+                                if self.tile_mgr.is_stale(st)]
             if handle_tiles:
                 self.count += 1
                 self.worker_pool.process(handle_tiles, self.seed_progress)
@@ -420,6 +422,15 @@ class TileWalker(object):
             # call cleanup to close open caches
             # for connection based caches
             self.tile_mgr.cleanup()
+
+    def _tiles_of(self, tile):
+        """
+        All tiles that are created together with `tile`: the tiles of its
+        meta tile when the walker works on meta tiles.
+        """
+        if not self.work_on_metatiles:
+            return [tile]
+        return [t for t in self.grid.tile_list(tile) if t is not None]
 
     def report_progress(self, level, bbox):
         if self.progress_logger:
